@@ -24,7 +24,7 @@ BATTERIES = {
     'C16': [['visit'], ['visit-cf', '4', '3'], ['visit-deep', '100000']],
     'C03': [['op'], ['cf', '4', '3'], ['cf', '5', '2']],
     'C01': [['op'], ['cf', '4', '3'], ['entities'], ['builder', '60']],
-    'C02': [['gc'], ['features'], ['names'], ['entities']],
+    'C02': [['gc'], ['features'], ['names'], ['entities'], ['edits']],
     'C15': [['builder']],
     'C18': [['replace']],
     'C20': [['features'], ['op']],
